@@ -37,6 +37,7 @@ type Case struct {
 	StallAt    int `json:"stall_at"` // global shot index with a long stall (−1 none)
 	StallMs    int `json:"stall_ms"`
 	PreStartMs int `json:"prestart_ms"` // schedule started this long ago
+	GapMs      int `json:"gap_ms"`      // >0: burst (300 ms) — silence of GapMs — tail: after a stall the next token lies in the future
 	JitterMs   int `json:"jitter_ms"`
 }
 
@@ -45,7 +46,10 @@ const window = 2 * time.Second
 func runCase(res *vkit.Result, c Case) {
 	d := time.Duration(c.DurMs) * time.Millisecond
 	var inner core.Schedule
-	if c.Line {
+	if c.GapMs > 0 {
+		inner = schedule.NewComposite(schedule.NewConst(c.From, 300*time.Millisecond),
+			schedule.NewConst(0, time.Duration(c.GapMs)*time.Millisecond), schedule.NewConst(c.From, d))
+	} else if c.Line {
 		inner = schedule.NewLine(c.From, c.To, d)
 	} else {
 		inner = schedule.NewConst(c.From, d)
@@ -203,6 +207,10 @@ func base() []Case {
 		// slower than the interval but never 2 s behind: nothing may be discarded
 		{Name: "slow-within-window", Instances: 1, From: 10, DurMs: 1500, Discard: true, ShotMs: 150, StallAt: -1},
 		{Name: "slow-within-window", Instances: 2, From: 20, DurMs: 2000, Discard: true, ShotMs: 140, StallAt: -1},
+		// a stall that makes a burst of tokens > 2 s late, followed by tokens that lie in the future when
+		// the instance comes back: the late ones are discarded, the on-time ones after them must be fired
+		{Name: "stall-then-future", Instances: 1, From: 10, DurMs: 1000, Discard: true, ShotMs: 1, StallAt: 0, StallMs: 2600, GapMs: 2500},
+		{Name: "stall-then-future", Instances: 1, From: 20, DurMs: 800, Discard: true, ShotMs: 0, StallAt: 1, StallMs: 2900, GapMs: 2700},
 		// schedule that started in the past: tokens overdue from the first draw on
 		{Name: "prestarted", Instances: 1, From: 20, DurMs: 3000, Discard: true, ShotMs: 1, StallAt: -1, PreStartMs: 2500},
 		{Name: "prestarted", Instances: 3, From: 30, DurMs: 3000, Discard: false, ShotMs: 1, StallAt: -1, PreStartMs: 2700},
@@ -217,7 +225,17 @@ func gen(rng *rand.Rand) Case {
 		c.Line = true
 		c.To = float64(5 + rng.Intn(46))
 	}
-	switch rng.Intn(5) {
+	switch rng.Intn(6) {
+	case 5:
+		c.Name = "stall-then-future"
+		c.Instances = 1
+		c.Line = false
+		c.Discard = true
+		c.GapMs = 2300 + rng.Intn(900)
+		c.StallAt = rng.Intn(2)
+		c.StallMs = c.GapMs + 50 + rng.Intn(150)
+		c.DurMs = 500 + rng.Intn(1000)
+		c.ShotMs = rng.Intn(2)
 	case 0:
 		c.Name = "all-fast"
 		c.ShotMs = rng.Intn(3)
@@ -254,7 +272,7 @@ func gen(rng *rand.Rand) Case {
 }
 
 func main() {
-	res := vkit.NewResult("mock pools in real time: 1–4 instances, const/line 5–50 rps for 1–6 s, scripted response-time histories (all fast; one 2.1–3.6 s stall; sustained slow target; slower than the interval but inside the 2 s window; profile started 1.5–3.5 s in the past), discard_overflow on/off; distinct = distinct case descriptions; non-trivial = the case produced late-but-fired or discarded tokens")
+	res := vkit.NewResult("mock pools in real time: 1–4 instances, const/line 5–50 rps for 1–6 s, scripted response-time histories (all fast; one 2.1–3.6 s stall; a stall followed by tokens lying in the future; sustained slow target; slower than the interval but inside the 2 s window; profile started 1.5–3.5 s in the past), discard_overflow on/off; distinct = distinct case descriptions; non-trivial = the case produced late-but-fired or discarded tokens")
 	rng := vkit.Rand("c04")
 	cases := base()
 	n := vkit.N(12, 400)
